@@ -95,6 +95,8 @@ class Ctx:
             for pr in r.prints:
                 if isinstance(pr, list) and pr and pr[0] == "REJECT":
                     rej.append((k + (pr[1] - 1) * shards, str(pr[2])))
+                elif isinstance(pr, list) and pr and pr[0] == "DRIFT":
+                    self.drift.append({"vector": k + (pr[1] - 1) * shards, "what": str(pr[2])})
             return r, rej
 
         rejected = []
